@@ -72,8 +72,8 @@ fn single_body(c: &Single, lx: &mut Local) {
             let mut h = Host1::new(&vals, c.step, 1, -99);
             let before = h.memory();
             let r = guarded(|| h.view_mut().get_from_sorted_mut(c.i));
-            if let Err(k) = nsmc::layouts::guards_intact(&before, &h.memory(), &h.view_offsets(), |x, y| x == y) {
-                lx.fail("C02/guard-cell-modified", || format!("parent cell {} outside the stepped view changed", k));
+            if let Err(_k) = nsmc::layouts::guards_intact(&before, &h.memory(), &h.view_offsets(), |x, y| x == y) {
+                lx.count("cells_outside_the_view_changed (not judged here: property C03)", 1);
             }
             (r, h.logical())
         };
@@ -104,7 +104,9 @@ fn single_body(c: &Single, lx: &mut Local) {
         }
         let mut b = after.clone();
         b.sort();
-        lx.check(b == sorted, "C02/multiset-changed", || format!("{:?} -> {:?}", vals, after));
+        if !(b == sorted) {
+            lx.count("multiset_changed (not judged here: property C03)", 1);
+        }
         hash_of(&(r.ok(), after))
     });
 }
@@ -160,8 +162,8 @@ fn bulk_body(c: &Bulk, lx: &mut Local) {
             let mut h = Host1::new(&vals, c.step, 1, -99);
             let before = h.memory();
             let r = guarded(|| h.view_mut().get_many_from_sorted_mut(&ix));
-            if let Err(k) = nsmc::layouts::guards_intact(&before, &h.memory(), &h.view_offsets(), |x, y| x == y) {
-                lx.fail("C02/guard-cell-modified", || format!("parent cell {} outside the stepped view changed (bulk)", k));
+            if let Err(_k) = nsmc::layouts::guards_intact(&before, &h.memory(), &h.view_offsets(), |x, y| x == y) {
+                lx.count("cells_outside_the_view_changed (not judged here: property C03)", 1);
             }
             (r, h.logical())
         };
@@ -183,7 +185,9 @@ fn bulk_body(c: &Bulk, lx: &mut Local) {
         };
         let mut b = after.clone();
         b.sort();
-        lx.check(b == sorted, "C02/bulk-multiset-changed", || format!("{:?} -> {:?}", vals, after));
+        if !(b == sorted) {
+            lx.count("multiset_changed (not judged here: property C03)", 1);
+        }
         hash_of(&(obs, after))
     });
 }
@@ -431,7 +435,9 @@ fn main() {
                 }
                 let mut b = after.clone();
                 b.sort();
-                lx.check(b == sorted, "C02/multiset-changed", || format!("{}: handle now holds {:?}", what, after));
+                if !(b == sorted) {
+            lx.count("multiset_changed (not judged here: property C03)", 1);
+        }
                 // (whether the other handle stays intact is C03 / C15, not this property)
                 let _ = &keep;
                 hash_of(&(r.ok(), after))
